@@ -266,7 +266,7 @@ func main() {
 					"VERIF_PROP=" + prop, "VERIF_MODE=sweep", fmt.Sprintf("VERIF_BASE=%d", seed),
 					fmt.Sprintf("VERIF_SEED0=%d", idx0), fmt.Sprintf("VERIF_STRIDE=%d", workers),
 					"VERIF_OUT=" + outF, "VERIF_PROGRESS=" + progF,
-					"GORACE=log_path=" + filepath.Join(workDir, fmt.Sprintf("race.%d", w)) + " halt_on_error=0",
+					"GORACE=log_path=" + filepath.Join(workDir, fmt.Sprintf("race.%d", w)) + " halt_on_error=0 exitcode=0",
 				}
 				n := 0
 				if tr.runs > 0 {
@@ -596,7 +596,7 @@ func minimiseAndVerify(prop, bin string, r Record, path string) string {
 	}
 	// replay in a fresh process: must reproduce
 	e := []string{"VERIF_PROP=" + prop, "VERIF_MODE=replay", "VERIF_FILE=" + path, "VERIF_OUT=" + filepath.Join(workDir, "replay.jsonl"),
-		"GORACE=log_path=" + filepath.Join(workDir, "race.replay") + " halt_on_error=0"}
+		"GORACE=log_path=" + filepath.Join(workDir, "race.replay") + " halt_on_error=0 exitcode=0"}
 	os.Remove(filepath.Join(workDir, "replay.jsonl"))
 	runWorker(bin, e, 5*time.Minute)
 	rb, _ := os.ReadFile(filepath.Join(workDir, "replay.jsonl"))
@@ -650,7 +650,7 @@ func doReplay(prop, bin, raceBin, file string) int {
 	}
 	outF := filepath.Join(workDir, "replay.jsonl")
 	e := []string{"VERIF_PROP=" + prop, "VERIF_MODE=replay", "VERIF_FILE=" + file, "VERIF_OUT=" + outF,
-		"GORACE=log_path=" + filepath.Join(workDir, "race.replay") + " halt_on_error=0"}
+		"GORACE=log_path=" + filepath.Join(workDir, "race.replay") + " halt_on_error=0 exitcode=0"}
 	out, err := runWorker(use, e, 5*time.Minute)
 	if err != nil {
 		fmt.Printf("%s\n", lastLines(out, 30))
